@@ -392,6 +392,8 @@ fn scenario_pairs() -> Vec<(&'static str, &'static str, &'static str)> {
         ("template-without-user-size/unit-width", r##"<svg><specs><rect id="t" width="2cm" height="$h"/></specs><reuse href="#t" h="3" x="10" y="20"/></svg>"##, r##"<svg><rect x="10" y="20" width="2cm" height="3" class="t"/></svg>"##),
         ("defaults-once/template-with-end-tag", r##"<svg><defaults><rect transform="translate(5)" style="fill:red"/></defaults><specs><rect id="t" wh="$s">hi</rect></specs><reuse href="#t" s="3"/></svg>"##, r##"<svg><defaults><rect transform="translate(5)" style="fill:red"/></defaults><rect wh="3" class="t">hi</rect></svg>"##),
         ("defaults-once/reuse-with-end-tag", r##"<svg><defaults><_ transform="translate(5)"/></defaults><specs><rect id="t" wh="$s"/></specs><reuse href="#t" s="3"></reuse></svg>"##, r##"<svg><defaults><_ transform="translate(5)"/></defaults><rect wh="3" class="t"/></svg>"##),
+        ("previous-element/group", r##"<svg><rect wh="1"/><g id="grp" class="k"><rect wh="3"/><circle r="1"/></g><reuse href="^" x="5"/></svg>"##, r##"<svg><rect wh="1"/><g id="grp" class="k"><rect wh="3"/><circle r="1"/></g><reuse href="#grp" x="5"/></svg>"##),
+        ("previous-element/link", r##"<svg><rect wh="1"/><a id="lnk" href="x"><rect wh="3"/><circle r="1"/></a><rect id="p" xy="20 0" wh="2"/><reuse href="^" y="5"/></svg>"##, r##"<svg><rect wh="1"/><a id="lnk" href="x"><rect wh="3"/><circle r="1"/></a><rect id="p" xy="20 0" wh="2"/><reuse href="#p" y="5"/></svg>"##),
         ("previous-element/parameters", r##"<svg><var s="3"/><rect wh="$s"/><reuse href="^" s="5" x="10"/></svg>"##, r##"<svg><var s="3"/><rect wh="$s"/><rect x="10" wh="5"/></svg>"##),
         ("defaults-apply-to-instance", r##"<svg><defaults><rect rx="2" class="d"/></defaults><specs><rect id="t" wh="$s"/></specs><reuse href="#t" s="3"/></svg>"##, r##"<svg><defaults><rect rx="2" class="d"/></defaults><rect wh="3" class="t"/></svg>"##),
     ]
